@@ -186,6 +186,12 @@ def collect_raises(func, R, rule):
             elif isinstance(s, ast.If):
                 rec(s.body, conds + [(s.test, True)], subst_list)
                 rec(s.orelse, conds + [(s.test, False)], subst_list)
+                # guard clause: what follows an ``if c: ...; return/raise`` runs only when c was false (and the mirror image)
+                ends = lambda b: bool(b) and isinstance(b[-1], (ast.Return, ast.Raise, ast.Continue, ast.Break))
+                if ends(s.body) and not ends(s.orelse):
+                    conds = conds + [(s.test, False)]
+                elif ends(s.orelse) and not ends(s.body):
+                    conds = conds + [(s.test, True)]
             elif isinstance(s, ast.For):
                 unrolled = unroll(func, s)
                 if unrolled is None:
